@@ -56,7 +56,7 @@ def parseOp (s : String) : Except String HOp :=
   match s.splitOn "@" with
   | ["call", e, arr] => do pure (.call (← parseEntry e) (← parseArr arr))
   | ["unlock", l, sp, a1, a2] => do pure (.unlock (← int l) (← reqHex sp) (← parseArr a1) (← parseArr a2))
-  | ["espr", w] => pure (.enterSpr (w == "1"))
+  | ["espr", w] => pure (if w == "b" then .enterSprBare else .enterSpr (w == "1"))
   | ["xspr"] => pure .exitSpr
   | ["eovr", m] => do
     match ← Drv.Send.parseModifier (m.replace "~" ":") with
